@@ -54,6 +54,10 @@ def _pair(arg, val):
     return [rat(arg), rat(val)]
 
 
+class ZeroJointData(Exception):
+    pass
+
+
 def tables(mo, da, want):
     """mo, da: encoded spectra (dicts).  Returns the 'tab' part of a record."""
     sh = mo['sh']
@@ -75,6 +79,8 @@ def tables(mo, da, want):
         sm = sum(md[k] for k in range(n) if live[k])
         sd = sum(dd[k] for k in range(n) if live[k])
         th = sd / sm
+        if th <= 0:
+            raise ZeroJointData('jointly unmasked data are all zero: the optimal scaling is 0')
         tab['lnth'] = _pair(th, math.log(float(th)))
     if 'sqrt' in want:
         tab['sqrt'] = [rat(math.sqrt(float(md[k]))) if pos[k] else '0' for k in range(n)]
@@ -212,9 +218,22 @@ def records(ctx):
     ncase = 45 if ctx.quick else 450
     for c in range(ncase):
         model, data = gen_pair(rng)
-        for op in OPS:
-            lvl = rng.choice([None, 0.0, 0.5, 1e-2, 2.0]) if op.endswith('resid') else None
-            recs.append(make_record('%s-%d' % (op, next(nid)), op, model, data, lvl))
+        # the optimal scaling sum(d)/sum(m) must be positive for the multinomial likelihood to be defined:
+        # redraw pairs whose jointly unmasked data are all zero
+        for attempt in range(20):
+            joint = ~(np.ma.getmaskarray(model) | np.ma.getmaskarray(data))
+            dm = data.fold() if False else data
+            if float(np.asarray(data.data)[joint].sum()) > 0:
+                break
+            model, data = gen_pair(rng)
+        try:
+            batch = []
+            for op in OPS:
+                lvl = rng.choice([None, 0.0, 0.5, 1e-2, 2.0]) if op.endswith('resid') else None
+                batch.append(make_record('%s-%d' % (op, next(nid)), op, model, data, lvl))
+            recs.extend(batch)
+        except ZeroJointData:
+            continue        # outside the domain of the multinomial likelihood (no data on the joint entries)
         # invariance to rescaling the model
         cfac = 10 ** rng.uniform(-3, 3)
         mo, da = enc(model), enc(data)
